@@ -166,6 +166,14 @@ func c17ExpectPoly(s *c17Poly) (e c17Expect) {
 		}
 		if v.Rel && i > 0 {
 			p = p.add(abs[i-1].p)
+		} else if v.Rel && s.Closed && len(s.V) > 1 && !s.V[len(s.V)-1].Rel {
+			// the vertex before the first vertex of a closed outline is its last vertex
+			l := s.V[len(s.V)-1]
+			lp := c17P{l.X, l.Y}
+			if l.Polar {
+				lp = c17Polar(l.X, l.Y)
+			}
+			p = p.add(lp)
 		}
 		n := node{p: p}
 		if v.Radius != 0 && v.Facets != 0 || v.Kind == "chamfer" && v.Radius != 0 {
